@@ -14,6 +14,7 @@ import (
 
 	"github.com/gdamore/tcell/v2"
 	"github.com/gdamore/tcell/v2/terminfo"
+	xenc "golang.org/x/text/encoding"
 
 	"verif/harness/common"
 	"verif/hc"
@@ -96,6 +97,25 @@ func drawSignature(ti *terminfo.Terminfo) string {
 		strings.Contains(ti.Name, "linux"), strings.Contains(ti.Clear, "\x0c"))
 }
 
+// acsMap: the glyph the terminal shows for a byte while its alternate character set is
+// active, per the entry's acsc pairs and terminfo(5)'s glyph-name table.
+func acsMap(ti *terminfo.Terminfo) map[byte]rune {
+	names := map[byte]rune{'+': tcell.RuneRArrow, ',': tcell.RuneLArrow, '-': tcell.RuneUArrow, '.': tcell.RuneDArrow, '0': tcell.RuneBlock,
+		'`': tcell.RuneDiamond, 'a': tcell.RuneCkBoard, 'f': tcell.RuneDegree, 'g': tcell.RunePlMinus, 'h': tcell.RuneBoard, 'i': tcell.RuneLantern,
+		'j': tcell.RuneLRCorner, 'k': tcell.RuneURCorner, 'l': tcell.RuneULCorner, 'm': tcell.RuneLLCorner, 'n': tcell.RunePlus, 'o': tcell.RuneS1,
+		'p': tcell.RuneS3, 'q': tcell.RuneHLine, 'r': tcell.RuneS7, 's': tcell.RuneS9, 't': tcell.RuneLTee, 'u': tcell.RuneRTee, 'v': tcell.RuneBTee,
+		'w': tcell.RuneTTee, 'x': tcell.RuneVLine, 'y': tcell.RuneLEqual, 'z': tcell.RuneGEqual, '{': tcell.RunePi, '|': tcell.RuneNEqual,
+		'}': tcell.RuneSterling, '~': tcell.RuneBullet}
+	m := map[byte]rune{}
+	a := ti.AltChars
+	for i := 0; i+1 < len(a); i += 2 {
+		if g, ok := names[a[i]]; ok {
+			m[a[i+1]] = g
+		}
+	}
+	return m
+}
+
 // ---------- operations ----------
 
 type op struct {
@@ -147,6 +167,10 @@ var styles = []shadow.StyleD{
 	{Fg: tcell.ColorAliceBlue, UL: 1, ULColor: tcell.ColorAliceBlue, Attrs: tcell.AttrDim | tcell.AttrBlink | tcell.AttrStrikeThrough}, // 7 named colour, underline named
 	{Fg: tcell.ColorBlack, Bg: tcell.ColorNone, UL: 2, ULColor: tcell.ColorReset},              // 8
 	{Fg: tcell.ColorLime, UL: 5, ULColor: tcell.PaletteColor(9)},                              // 9
+	{Fg: tcell.PaletteColor(255), Bg: tcell.NewRGBColor(255, 255, 255), UL: 4, ULColor: tcell.PaletteColor(255)}, // 10 extreme values
+	{Fg: tcell.Color(1000) | tcell.ColorValid, Bg: tcell.ColorSpecial | 99, URL: "http://h/p?a=1&b=%20;c", URLI: "x;y:z"}, // 11 odd colours, url with ; and %
+	{Fg: tcell.NewRGBColor(0, 0, 0), Attrs: tcell.AttrBold | tcell.AttrBlink | tcell.AttrReverse | tcell.AttrDim | tcell.AttrItalic | tcell.AttrStrikeThrough, UL: 3, ULColor: tcell.ColorReset}, // 12 everything
+	{URL: "x", URLI: ""}, // 13
 }
 
 type scenario struct {
@@ -254,7 +278,11 @@ type dsys struct {
 var stuck int32
 
 func newSys(cfg *config, sc *scenario) *dsys {
-	os.Setenv("LC_ALL", "en_US.UTF-8")
+	return newSysLocale(cfg, sc, "en_US.UTF-8", "UTF-8")
+}
+
+func newSysLocale(cfg *config, sc *scenario, locale, charset string) *dsys {
+	os.Setenv("LC_ALL", locale)
 	os.Unsetenv("LINES")
 	os.Unsetenv("COLUMNS")
 	os.Unsetenv("TCELL_ALTSCREEN")
@@ -264,7 +292,15 @@ func newSys(cfg *config, sc *scenario) *dsys {
 		os.Setenv("TCELL_TRUECOLOR", "disable")
 	}
 	d := &dsys{cfg: cfg, sc: sc}
-	d.term = vt.New(sc.w, sc.h, nil, cfg.quirks)
+	var enc xenc.Encoding
+	if charset != "UTF-8" {
+		enc = tcell.GetEncoding(charset)
+	}
+	q := cfg.quirks
+	if q.AcsMap == nil {
+		q.AcsMap = acsMap(cfg.ti)
+	}
+	d.term = vt.New(sc.w, sc.h, enc, q)
 	d.tty = common.NewFakeTty(d.term, sc.w, sc.h)
 	ti := *cfg.ti
 	s, err := tcell.NewTerminfoScreenFromTtyTerminfo(d.tty, &ti)
@@ -578,13 +614,148 @@ func (d *dsys) checkWritten(full bool, want []shadow.Want) string {
 	return ""
 }
 
+// ---------- C09 part 1: every code point as primary cell content ----------
+
+func sweepSys(ti *terminfo.Terminfo, locale string, w, h int) *dsys {
+	cfg := mkConfig(common.Entry{Name: ti.Name, Ti: ti}, false)
+	sc := &scenario{name: "sweep", w: w, h: h}
+	d := newSys(&cfg, sc)
+	return d
+}
+
+func sweep(entries []common.Entry) {
+	locales := []struct{ env, cs string }{{"en_US.UTF-8", "UTF-8"}, {"en_US.ISO8859-1", "ISO8859-1"}, {"C", "US-ASCII"}, {"zh_CN.GBK", "GBK"}}
+	var tis []*terminfo.Terminfo
+	for _, e := range entries {
+		if e.Name == "xterm-256color" || e.Name == "sun" {
+			tis = append(tis, e.Ti)
+		}
+	}
+	var runes []rune
+	for r := rune(-2); r <= 0x110001; r++ {
+		runes = append(runes, r)
+	}
+	runes = append(runes, -2147483648, 2147483647)
+	item := 0
+	for _, ti := range tis {
+		for _, loc := range locales {
+			for _, sz := range [][2]int{{3, 1}, {2, 1}} {
+				item++
+				func() {
+					os.Setenv("LC_ALL", loc.env)
+					cfg := mkConfig(common.Entry{Name: ti.Name, Ti: ti}, false)
+					sc := &scenario{name: "sweep", w: sz[0], h: sz[1]}
+					os.Setenv("VERIF_LOCALE", loc.env)
+					d := newSysLocale(&cfg, sc, loc.env, loc.cs)
+					defer d.Close()
+					d.s.Show()
+					n := 0
+					for ri, r := range runes {
+						if (ri+item)%*hc.NShards != *hc.Shard {
+							continue
+						}
+						for mode := 0; mode < 2; mode++ {
+							n++
+							before := len(d.term.Text)
+							bells, shift, g0, g1, title := d.term.Bells, d.term.Shift, d.term.G[0], d.term.G[1], d.term.Title
+							if mode == 0 {
+								for x := 0; x < sz[0]; x++ {
+									d.s.SetContent(x, 0, r, nil, tcell.StyleDefault)
+								}
+							} else {
+								d.s.Fill(r, tcell.StyleDefault)
+							}
+							d.s.Show()
+							how := map[int]string{0: "SetContent", 1: "Fill"}[mode]
+							bad := ""
+							switch {
+							case len(d.term.Errors) > d.errSeen:
+								bad = "output not well formed: " + d.term.Errors[d.errSeen]
+								d.errSeen = len(d.term.Errors)
+							case d.term.InString():
+								bad = "output ends inside a control sequence or character"
+							case d.term.Bells != bells || d.term.Shift != shift || d.term.G[0] != g0 || d.term.G[1] != g1 || d.term.Title != title || d.term.Scrolled > 0:
+								bad = fmt.Sprintf("the cell content acted as a control function on the terminal (bell %d->%d, shift %d->%d, charset %c%c->%c%c, scrolled %d)", bells, d.term.Bells, shift, d.term.Shift, g0, g1, d.term.G[0], d.term.G[1], d.term.Scrolled)
+							}
+							for _, pr := range d.term.Text[before:] {
+								if pr < 0x20 || pr == 0x7f || (pr >= 0x80 && pr < 0xa0) {
+									bad = fmt.Sprintf("control character U+%04X reached the terminal as text", pr)
+								}
+							}
+							if bad == "" {
+								_, wd := shadow.Shown(r)
+								mustBlank := false
+								if sr, _ := shadow.Shown(r); sr == ' ' && r != ' ' {
+									mustBlank = true
+								}
+								if mustBlank || (wd == 2 && loc.cs == "UTF-8") {
+									for x := 0; x < sz[0]; x++ {
+										c := d.term.At(x, 0)
+										if mustBlank && (c.R != ' ' || c.Wide != 1 || c.Comb != "") {
+											bad = fmt.Sprintf("cell (%d,0) must show a blank for this rune, terminal shows %s", x, c)
+										}
+									}
+								}
+							}
+							if bad != "" {
+								w.Violation("codepoint:"+how+":"+runeClass(r), fmt.Sprintf("%s, locale %s, %dx%d screen, %s of rune %#x: %s", ti.Name, loc.cs, sz[0], sz[1], how, r, bad),
+									map[string]interface{}{"entry": ti.Name, "locale": loc.env, "rune": r, "how": how})
+								d.term.Scrolled = 0
+							}
+							d.term.Text = d.term.Text[:0]
+						}
+					}
+					w.R.Evaluations += int64(n)
+					w.AddDistinct(int64(n))
+				}()
+			}
+		}
+	}
+	os.Setenv("LC_ALL", "en_US.UTF-8")
+	w.R.Scenarios["codepoint_sweep"] = map[string]interface{}{"runes": len(runes), "locales": 4, "entries": len(tis), "screen_sizes": 2, "modes": "SetContent in every column, Fill"}
+	w.Sample(map[string]interface{}{"codepoint": "U+009B via Fill on sun / ISO8859-1 / 2x1", "expect": "blank cells, no CSI reaches the terminal"})
+}
+
+func runeClass(r rune) string {
+	switch {
+	case r < 0 || r > 0x10ffff:
+		return "invalid"
+	case r < ' ':
+		return "c0"
+	case r == 0x7f:
+		return "del"
+	case r >= 0x80 && r < 0xa0:
+		return "c1"
+	case r >= 0xd800 && r <= 0xdfff:
+		return "surrogate"
+	}
+	if _, wd := shadow.Shown(r); wd == 2 {
+		return "wide"
+	}
+	if sr, _ := shadow.Shown(r); sr == ' ' && r != ' ' {
+		return "zerowidth"
+	}
+	return "printable"
+}
+
+func c09Scenarios() []scenario {
+	show := op{kind: "show"}
+	ops := []op{
+		{kind: "set", x: 0, r: 'e', comb: []rune{0x0301, 0x200d}}, {kind: "set", x: 1, r: 'a', comb: []rune{0x0300, 0x0301, 0x0302, 0x0303}},
+		{kind: "set", x: 2, r: '世', comb: []rune{0x0301}}, {kind: "set", x: 1, r: 'x', st: 10}, {kind: "set", x: 0, r: 'y', st: 11}, {kind: "set", x: 2, r: 'z', st: 12},
+		{kind: "set", x: 3, r: '%', st: 13}, {kind: "setstyle", st: 11}, {kind: "fill", r: 0x85, st: 10}, {kind: "cstyle", cs: 9, col: tcell.NewRGBColor(255, 255, 255)},
+		{kind: "cursor", x: 1, y: 0}, show, {kind: "sync"},
+	}
+	return []scenario{{"X-extreme-values-4x1", 4, 1, ops, 3, 4, nil}}
+}
+
 // ---------- driver ----------
 
 func main() {
 	w = hc.Start("")
 	w.R.Property = *prop
 	w.R.Rule = "explicit-state BFS (depth per scenario; states merged only on equal private screen state + reference terminal grid/registers + model bookkeeping) over draw histories on the real terminfo screen with a fake Tty feeding the reference terminal; scenarios: wide-rune neighbourhood 4x1, style/colour cache 2x2 (10 styles: palette, bright, RGB, none/reset, named, underline styles/colours, url), cursor 3x2, lock regions 3x2, resize/Sync/external corruption, mixed incl. out-of-range coordinates and control runes; configurations: one entry per draw-signature class of the ECMA-48 family (thorough: every family entry) x direct colour on/off. Oracle after every Show/Sync/resize redraw: " +
-		map[string]string{"C01": "terminal grid == expected display of the shadow model (rune, combining, colours incl. CIE76-nearest, attributes, underline style/colour, hyperlink) and cursor position/visibility/shape/colour", "C13": "cells stamped by the Show block are a subset of the cells changed since the previous Show (+ wide-rune columns, + bottom-right helper cell), never a locked cell", "C09": "the strict tokenizer accepted every byte written (complete CSI/OSC/ESC sequences, numeric parameters, valid UTF-8, no C0/C1 controls in text), no scroll, block ends in ground state"}[*prop] +
+		map[string]string{"C17": "", "C01": "terminal grid == expected display of the shadow model (rune, combining, colours incl. CIE76-nearest, attributes, underline style/colour, hyperlink) and cursor position/visibility/shape/colour", "C13": "cells stamped by the Show block are a subset of the cells changed since the previous Show (+ wide-rune columns, + bottom-right helper cell), never a locked cell", "C09": "the strict tokenizer accepted every byte written (complete CSI/OSC/ESC sequences, numeric parameters, valid UTF-8, no C0/C1 controls in text), no scroll, block ends in ground state"}[*prop] +
 		". distinct_nontrivial = distinct canonical states reached"
 	w.R.Assumptions = []string{"the reference terminal (ref/vt) is this project's reading of ECMA-48/xterm: deferred wrap, overwriting half of a wide character blanks the other half, back-colour erase", "rune widths from go-runewidth on both sides", "which attributes/underline/hyperlink/cursor features a terminal has is derived from the entry's capability strings with tcell's documented rule 'mouse capability or xterm name => xterm extensions'", "resize notifications are synchronised by waiting for the redraw's Write (20 s watchdog reports a missing redraw as a violation)"}
 
@@ -668,6 +839,17 @@ func main() {
 		return
 	}
 
+	if *prop == "C09" {
+		sweep(entries)
+		// histories specific to C09: fewer, the rest is covered by the C01/C13 runs
+		var keep []scenario
+		for _, sc := range scs {
+			if sc.name[0] == 'W' || sc.name[0] == 'S' || sc.name[0] == 'M' || sc.name[0] == 'R' {
+				keep = append(keep, sc)
+			}
+		}
+		scs = append(keep, c09Scenarios()...)
+	}
 	item := 0
 	for ci := range cfgs {
 		cfg := &cfgs[ci]
